@@ -2,6 +2,7 @@
    Only the property theorems; proofs are in Proofs_DoubleSign.v, the model in
    Model_DoubleSign.v. *)
 From Goloop Require Import lib.Bytes Model_DoubleSign Proofs_DoubleSign.
+From Goloop Require Import Link_C06.
 Open Scope N_scope.
 
 (* IsConflictWith holds exactly for: same concrete type, signer, height, round,
@@ -125,3 +126,15 @@ Theorem C06_nidbug_refuted :
   is_conflict_nidbug nidbug_a nidbug_b = true /\ is_conflict nidbug_a nidbug_b = false.
 Proof. exact nidbug_refuted. Qed.
 Print Assumptions C06_nidbug_refuted.
+
+(* ---- kernel link (Link_C06.v).  matchNID is re-generated from
+   consensus/doublesigndata.go on every run (tools/go2coq); match_nid of the model,
+   used in all theorems above, IS the decision of the current Go code ---- *)
+Theorem C06_kernel_matchNID : forall n1 n2 : N,
+  match_nid n1 n2 = matchNID (Z.of_N n1) (Z.of_N n2).
+Proof. exact match_nid_is_matchNID. Qed.
+Print Assumptions C06_kernel_matchNID.
+
+Theorem C06_kernel_params : Link_C06.kernel_params_pinned.
+Proof. exact Link_C06.kernel_params_ok. Qed.
+Print Assumptions C06_kernel_params.
